@@ -27,7 +27,11 @@ ROOT = z3.Const("root_path", P)
 HEAD = z3.Function("first_segment", P, SG)
 TAIL = z3.Function("rest_of_path", P, P)
 JOIN = z3.Function("prefix_slash_segment", P, SG, P)  # current_prefix + "/" + key
+# the prefix relation, unfolded exactly once: PFX speaks about the paths of this call, PFX_T about their tails (where the
+# recursive call's contract speaks).  Both denote the same relation; keeping two symbols stops the solver from unfolding
+# the recursive definition without bound (a matching loop).
 PFX = z3.Function("is_segment_prefix", P, P, z3.BoolSort())
+PFX_T = z3.Function("is_segment_prefix_of_tails", P, P, z3.BoolSort())
 OPT_P = TOpt(DP)
 SPLIT = TTup(SEG, OPT_P)
 SEQ_SPLIT = TSeq(SPLIT)
@@ -37,19 +41,24 @@ GROUP = TTup(SEG, SEQ_SPLIT)
 def algebra():
     x, y = z3.Const("x_", P), z3.Const("y_", P)
     return [
-        z3.ForAll([x, y], PFX(x, y) == z3.Or(x == ROOT, z3.And(x != ROOT, y != ROOT, HEAD(x) == HEAD(y), PFX(TAIL(x), TAIL(y))))),
+        z3.ForAll([x, y], PFX(x, y) == z3.Or(x == ROOT, z3.And(x != ROOT, y != ROOT, HEAD(x) == HEAD(y), PFX_T(TAIL(x), TAIL(y))))),
         z3.ForAll([x, y], z3.Implies(z3.And(x != ROOT, y != ROOT, HEAD(x) == HEAD(y), TAIL(x) == TAIL(y)), x == y)),  # a path is its segments
     ]
 
 
-def spfx(x, y):
-    return z3.And(PFX(x, y), x != y)
+def spfx(x, y, rel=None):
+    return z3.And((PFX if rel is None else rel)(x, y), x != y)
 
 
-def overlap(seq):
+def overlap(seq, rel=None):
     i, j = z3.Int(sv.fresh_name("i")), z3.Int(sv.fresh_name("j"))
     n = z3.Length(seq)
-    return z3.Exists([i, j], z3.And(0 <= i, i < n, 0 <= j, j < n, i != j, spfx(seq[i], seq[j])))
+    return z3.Exists([i, j], z3.And(0 <= i, i < n, 0 <= j, j < n, i != j, spfx(seq[i], seq[j], rel)))
+
+
+def overlap_t(seq):
+    """overlap among tails (the relation one level down)"""
+    return overlap(seq, PFX_T)
 
 
 def distinct(seq):
@@ -58,15 +67,43 @@ def distinct(seq):
     return z3.ForAll([i, j], z3.Implies(z3.And(0 <= i, i < n, 0 <= j, j < n, i != j), seq[i] != seq[j]))
 
 
+def in_seq(seq, x):
+    j = z3.Int(sv.fresh_name("j"))
+    return z3.Exists([j], z3.And(0 <= j, j < z3.Length(seq), seq[j] == x))
+
+
+def all_non_root_in(paths, ne):
+    i = z3.Int(sv.fresh_name("i"))
+    return z3.ForAll([i], z3.Implies(z3.And(0 <= i, i < z3.Length(paths), paths[i] != ROOT), in_seq(ne, paths[i])))
+
+
 def tail_of_split(t):
     """the relative path a split tuple stands for: its second component, "/" when that is None"""
     o = SPLIT.get(t, 1)
     return z3.If(OPT_P.is_none(o), ROOT, OPT_P.val(o))
 
 
+from pyvc.spec import LazyIter
+
+
+class GroupsIter(LazyIter):
+    def __init__(self, n, gk, gm):
+        self.n, self.gk, self.gm = n, gk, gm
+
+    def concrete(self, eng):
+        return None
+
+    def length(self, eng):
+        return self.n
+
+    def item(self, eng, k):
+        return (Sym(self.gk(k), SEG), Sym(self.gm(k), SEQ_SPLIT))
+
+
 class non_terminal_leaves(FnSpec):
     file, qualname = "dds/structures_utils.py", "FunctionInteractionsUtils.non_terminal_leaves"
     variant = "below a prefix"
+    filter_subsequence_axioms = True
 
     def __init__(self):
         super().__init__()
@@ -120,6 +157,23 @@ class non_terminal_leaves(FnSpec):
         i = z3.Int(sv.fresh_name("i"))
         eng.assume(z3.Length(r.term) == z3.Length(src))
         eng.assume(z3.ForAll([i], z3.Implies(z3.And(0 <= i, i < z3.Length(src)), r.term[i] == self.split_term(src[i]))), heavy=True)
+        # proof steps about the filtered list and its splits (each an obligation, then available)
+        rng = z3.And(0 <= i, i < z3.Length(src))
+        eng.oblige("lemma:filtered_paths_are_not_root", z3.ForAll([i], z3.Implies(rng, src[i] != ROOT)), kind="lemma")
+        eng.oblige("lemma:filtered_paths_are_distinct", distinct(src), kind="lemma")
+        eng.oblige("lemma:both_root_and_other_paths_iff_the_filter_dropped_some_but_not_all", self.root_and_other(self.ctx) == z3.And(z3.Length(self.ctx.args["paths"].term) > z3.Length(src), z3.Length(src) > 0), kind="lemma")
+        ps = self.ctx.args["paths"].term
+        eng.oblige("lemma:filtered_paths_come_from_the_list", z3.ForAll([i], z3.Implies(rng, in_seq(ps, src[i]))), kind="lemma")
+        eng.oblige("lemma:every_non_root_path_is_in_the_filtered_list", all_non_root_in(ps, src), kind="lemma")
+        # the two existential lemmas just proved, by index functions (skolemisation: conservative)
+        n_ = sv.fresh_name("flt")
+        PI = z3.Function(n_ + ".index_in_list", z3.IntSort(), z3.IntSort())
+        NI = z3.Function(n_ + ".index_in_filtered", z3.IntSort(), z3.IntSort())
+        eng.assume(z3.ForAll([i], z3.Implies(rng, z3.And(0 <= PI(i), PI(i) < z3.Length(ps), ps[PI(i)] == src[i]))), heavy=True)
+        eng.assume(z3.ForAll([i], z3.Implies(z3.And(0 <= i, i < z3.Length(ps), ps[i] != ROOT), z3.And(0 <= NI(i), NI(i) < z3.Length(src), src[NI(i)] == ps[i]))), heavy=True)
+        eng.st.ghost_PI, eng.st.ghost_NI = PI, NI
+        eng.oblige("lemma:split_components", z3.ForAll([i], z3.Implies(rng, z3.And(SPLIT.get(r.term[i], 0) == HEAD(src[i]), tail_of_split(r.term[i]) == TAIL(src[i])))), kind="lemma")
+        self.ctx.eng.st.ghost_ne = src
         return r
 
     def tails_of(self, it):
@@ -152,25 +206,59 @@ class non_terminal_leaves(FnSpec):
             raise OutOfSubset("groupby with another key than the first component")
         is_sorted = isinstance(xs, ObjVal) and xs.cls == "SortedByFirst"
         s = xs.fields["seq"].term if is_sorted else (xs.term if isinstance(xs, Sym) else xs.sym().term)
-        G = TSeq(GROUP).fresh("groups")
+        # groups as functions of the group index: key GK(g), members GM(g)
+        n_ = sv.fresh_name("groups")
+        NG = z3.Int(n_ + ".count")
+        GK = z3.Function(n_ + ".key", z3.IntSort(), SG)
+        GM = z3.Function(n_ + ".members", z3.IntSort(), SEQ_SPLIT.sort())
         g, g2, m, i = z3.Int(sv.fresh_name("g")), z3.Int(sv.fresh_name("g2")), z3.Int(sv.fresh_name("m")), z3.Int(sv.fresh_name("i"))
-        ng, ns = z3.Length(G.term), z3.Length(s)
-        key_of = lambda gi: GROUP.get(G.term[gi], 0)
-        mem = lambda gi: GROUP.get(G.term[gi], 1)
-        ing = z3.And(0 <= g, g < ng)
-        eng.assume(ng >= 0)
+        ns = z3.Length(s)
+        ing = z3.And(0 <= g, g < NG)
+        inm = z3.And(ing, 0 <= m, m < z3.Length(GM(g)))
+        SI = z3.Function(n_ + ".index_of_member", z3.IntSort(), z3.IntSort(), z3.IntSort())  # where member m of group g sits in the input
+        GG = z3.Function(n_ + ".group_of", z3.IntSort(), z3.IntSort())  # the group / position of input element i
+        MM = z3.Function(n_ + ".position_of", z3.IntSort(), z3.IntSort())
+        eng.assume(NG >= 0)
         # every group is non-empty and holds elements of the input with the group's key
-        eng.assume(z3.ForAll([g], z3.Implies(ing, z3.Length(mem(g)) > 0)), heavy=True)
-        eng.assume(z3.ForAll([g, m], z3.Implies(z3.And(ing, 0 <= m, m < z3.Length(mem(g))), z3.And(SPLIT.get(mem(g)[m], 0) == key_of(g), z3.Exists([i], z3.And(0 <= i, i < ns, s[i] == mem(g)[m]))))), heavy=True)
+        eng.assume(z3.ForAll([g], z3.Implies(ing, z3.Length(GM(g)) > 0)), heavy=True)
+        eng.assume(z3.ForAll([g, m], z3.Implies(inm, z3.And(SPLIT.get(GM(g)[m], 0) == GK(g), 0 <= SI(g, m), SI(g, m) < ns, s[SI(g, m)] == GM(g)[m]))), heavy=True)
         # every element of the input is in some group
-        eng.assume(z3.ForAll([i], z3.Implies(z3.And(0 <= i, i < ns), z3.Exists([g, m], z3.And(ing, 0 <= m, m < z3.Length(mem(g)), mem(g)[m] == s[i])))), heavy=True)
+        eng.assume(z3.ForAll([i], z3.Implies(z3.And(0 <= i, i < ns), z3.And(0 <= GG(i), GG(i) < NG, 0 <= MM(i), MM(i) < z3.Length(GM(GG(i))), GM(GG(i))[MM(i)] == s[i]))), heavy=True)
         # a group of a duplicate-free input is duplicate-free
-        eng.assume(z3.Implies(distinct_splits(s), z3.ForAll([g], z3.Implies(ing, distinct_splits(mem(g))))), heavy=True)
+        eng.assume(z3.Implies(distinct_splits(s), z3.ForAll([g], z3.Implies(ing, distinct_splits(GM(g))))), heavy=True)
         if is_sorted:
             # sorted by the grouping key: equal keys are adjacent, so no key has two groups
-            eng.assume(z3.ForAll([g, g2], z3.Implies(z3.And(ing, 0 <= g2, g2 < ng, g != g2), key_of(g) != key_of(g2))), heavy=True)
-        eng.st.ghost_groups = G
-        return G
+            eng.assume(z3.ForAll([g, g2], z3.Implies(z3.And(ing, 0 <= g2, g2 < NG, g != g2), GK(g) != GK(g2))), heavy=True)
+        # a name for "the tails of group g overlap" (keeps the nested quantifiers out of the invariant)
+        OVG = z3.Function(n_ + ".tails_overlap", z3.IntSort(), z3.BoolSort())
+        eng.assume(z3.ForAll([g], OVG(g) == overlap_t(TAILS(GM(g)))), heavy=True)
+        eng.st.ghost_OVG = OVG
+        eng.st.ghost_groups = (NG, GK, GM)
+        eng.st.ghost_splits = s
+        # proof step: the splits of pairwise distinct non-root paths are pairwise distinct
+        eng.oblige("lemma:splits_are_distinct", distinct_splits(s), kind="lemma", node=node)
+        eng.oblige("lemma:groups_are_duplicate_free", z3.ForAll([g], z3.Implies(ing, distinct_splits(GM(g)))), kind="lemma", node=node)
+        ps = self.ctx.args["paths"].term
+        PI, NI = eng.st.ghost_PI, eng.st.ghost_NI
+        a = z3.Int(sv.fresh_name("a"))
+        ina = z3.And(0 <= a, a < z3.Length(ps))
+        src_of = lambda g_, m_: ps[PI(SI(g_, m_))]
+        eng.oblige(
+            "lemma:a_group_member_is_the_split_of_a_non_root_path_of_the_list",
+            z3.ForAll([g, m], z3.Implies(inm, z3.And(0 <= PI(SI(g, m)), PI(SI(g, m)) < z3.Length(ps), src_of(g, m) != ROOT, GM(g)[m] == self.split_term(src_of(g, m)), GK(g) == HEAD(src_of(g, m)), tail_of_split(GM(g)[m]) == TAIL(src_of(g, m))))),
+            kind="lemma",
+            node=node,
+        )
+        grp = lambda a_: GG(NI(a_))
+        pos = lambda a_: MM(NI(a_))
+        eng.oblige(
+            "lemma:a_non_root_path_of_the_list_is_in_the_group_of_its_first_segment",
+            z3.ForAll([a], z3.Implies(z3.And(ina, ps[a] != ROOT), z3.And(0 <= grp(a), grp(a) < NG, 0 <= pos(a), pos(a) < z3.Length(GM(grp(a))), GK(grp(a)) == HEAD(ps[a]), GM(grp(a))[pos(a)] == self.split_term(ps[a]), tail_of_split(GM(grp(a))[pos(a)]) == TAIL(ps[a])))),
+            kind="lemma",
+            node=node,
+        )
+        eng.st.ghost_idx = (SI, GG, MM)
+        return GroupsIter(NG, GK, GM)
 
     def ih(self, eng, args, kwargs, node):
         """the recursive call by its contract"""
@@ -178,7 +266,15 @@ class non_terminal_leaves(FnSpec):
         st = sub.term if isinstance(sub, Sym) else sub.sym().term
         eng.oblige("call:non_terminal_leaves:requires:paths_distinct", distinct(st), kind="call-requires", node=node)
         r = TSeq(DP).fresh("rec")
-        eng.assume((z3.Length(r.term) > 0) == overlap(st), heavy=True)
+        eng.assume((z3.Length(r.term) > 0) == overlap_t(st), heavy=True)
+        # proof step: for the group being processed this is the named predicate
+        OVG = getattr(eng.st, "ghost_OVG", None)
+        try:
+            gm = st.arg(0)
+            if OVG is not None and st.decl().name() == TAILS.name() and gm.num_args() == 1:
+                eng.oblige("lemma:the_recursive_call_decides_the_overlap_of_this_group", (z3.Length(r.term) > 0) == OVG(gm.arg(0)), kind="lemma", node=node)
+        except Exception:
+            pass
         return r
 
     # ---- contract ---------------------------------------------------------------------------------------------------
@@ -206,10 +302,25 @@ class non_terminal_leaves(FnSpec):
     def inv(self, ctx, env, k):
         res = env["res"]
         t = res.term if isinstance(res, Sym) else res.sym().term
-        G = ctx.eng.st.ghost_groups.term
+        NG, GK, GM = ctx.eng.st.ghost_groups
         g = z3.Int(sv.fresh_name("g"))
-        tails = lambda gi: TAILS(GROUP.get(G[gi], 1))
-        return [("reported_iff_overlap_so_far", (z3.Length(t) > 0) == z3.Or(self.root_and_other(ctx), z3.Exists([g], z3.And(0 <= g, g < k, overlap(tails(g))))))]
+        OVG = ctx.eng.st.ghost_OVG
+        return [("reported_iff_overlap_so_far", (z3.Length(t) > 0) == z3.Or(self.root_and_other(ctx), z3.Exists([g], z3.And(0 <= g, g < k, OVG(g)))))]
+
+    def proof_steps(self, ctx):
+        NG, GK, GM = ctx.eng.st.ghost_groups
+        ps = ctx.args["paths"].term
+        g = z3.Int(sv.fresh_name("g"))
+        ing = z3.And(0 <= g, g < NG)
+        return [
+            ("root_with_another_path_is_an_overlap", z3.Implies(self.root_and_other(ctx), overlap(ps))),
+            ("an_overlap_inside_a_group_is_an_overlap_of_the_list", z3.ForAll([g], z3.Implies(z3.And(ing, overlap_t(TAILS(GM(g)))), overlap(ps)))),
+            ("an_overlap_of_the_list_is_the_root_case_or_inside_a_group", z3.Implies(overlap(ps), z3.Or(self.root_and_other(ctx), z3.Exists([g], z3.And(ing, overlap_t(TAILS(GM(g)))))))),
+            ("named_predicate_1", z3.ForAll([g], z3.Implies(z3.And(ing, ctx.eng.st.ghost_OVG(g)), overlap_t(TAILS(GM(g)))))),
+            ("named_predicate_2", z3.ForAll([g], z3.Implies(z3.And(ing, ctx.eng.st.ghost_OVG(g)), overlap(ps)))),
+            ("named_predicate_3", z3.ForAll([g], z3.Implies(z3.And(ing, overlap_t(TAILS(GM(g)))), ctx.eng.st.ghost_OVG(g)))),
+            ("named_predicate_4", z3.Implies(overlap(ps), z3.Or(self.root_and_other(ctx), z3.Exists([g], z3.And(ing, ctx.eng.st.ghost_OVG(g)))))),
+        ]
 
     def ensures(self, ctx):
         r = ctx.result
